@@ -33,7 +33,11 @@ META = dict(
          "binary/text/universal-newline modes; random programs of read(n)/read()/readline()/readline(k)/next()/"
          "for-iteration/readlines and write/writelines/flush/close. Every returned value is compared with the next "
          "bytes of the stream, every write with the bytes the stream has received. A sample runs through a real "
-         "ChannelFile over Channel.recv/sendall. Holds for the cases produced.",
+         "ChannelFile over Channel.recv/sendall. A separate stratum opens ChannelFile/ChannelStderrFile/ChannelStdinFile "
+         "with makefile*('wb', n) for unbuffered, line and block buffering and ends with flush+close, close only, or a "
+         "partial line pending: on a stub-transport Channel the emitted DATA/EXTENDED_DATA/EOF messages are parsed, over "
+         "a real transport pair the peer reads until EOF; the peer must hold exactly the bytes written, before the EOF of "
+         "a stdin file, and close() must not raise. Holds for the cases produced.",
     note="Text mode uses ASCII streams (a size-limited read can split a UTF-8 sequence, which the statement does not "
          "cover). Universal-newline mode is judged on line structure only.",
     rule="case = (stream bytes, chunk policy, EOF style, mode, bufsize, op program); distinct = hash of all of it; "
@@ -419,6 +423,198 @@ def run_writes(f, prog, line_buffered, counters, close=True, written=b""):
     return written
 
 
+# ------------------------------------------------------------------ channel-backed file classes
+# ChannelFile / ChannelStderrFile / ChannelStdinFile from makefile('wb', n) / makefile_stderr('wb', n) /
+# makefile_stdin('wb', n) with write buffering and data still pending at close(): everything written must
+# reach the peer complete and in order, before the EOF that closing a stdin file sends, and close() must
+# not raise.  Level 1: real Channel on the stub transport (wire messages parsed independently).
+# Level 2: real client/server Transport pair, the peer reads until EOF.
+KINDS = ("stdin", "plain", "stderr")
+BUF_CLASSES = {"unbuffered": [0, -1], "line": [1], "block": [2, 3, 8, 64, 8192]}
+ENDINGS = ("flush_close", "close_only", "partial_line")
+
+
+def gen_cf_writes(rng, ending):
+    """A list of byte strings to write (flushes may be interleaved as None) shaped for the ending."""
+    ops = []
+    for _ in range(rng.randint(1, 6)):
+        k = rng.choice([1, 2, 3, 7, rng.randint(1, 30), rng.randint(1, 120)])
+        d = bytearray()
+        while len(d) < k:
+            x = rng.random()
+            d += b"\n" if x < 0.15 else bytes([rng.choice(b"abcdefgh 0123456789\r")])
+        ops.append(bytes(d[:k]))
+        if rng.random() < 0.15:
+            ops.append(None)
+    while ops and ops[-1] is None:
+        ops.pop()
+    last = ops[-1]
+    if ending == "partial_line":
+        ops[-1] = last.rstrip(b"\n") + b"x"  # pending text after the last newline, no flush
+    elif ending == "close_only" and rng.random() < 0.5:
+        ops[-1] = last + b"\n"
+    if ending == "flush_close":
+        ops.append(None)
+    return ops
+
+
+def cf_open(chan, kind, bufsize):
+    mode = "wb"
+    if kind == "stdin":
+        return chan.makefile_stdin(mode, bufsize)
+    if kind == "stderr":
+        return chan.makefile_stderr(mode, bufsize)
+    return chan.makefile(mode, bufsize)
+
+
+def cf_drive(f, ops):
+    """Run the writes; returns (written, error) - error is (stage, exception) if anything raised."""
+    written = b""
+    try:
+        for op in ops:
+            if op is None:
+                f.flush()
+            else:
+                f.write(op)
+                written += op
+    except Exception as e:  # noqa
+        return written, ("write/flush", e)
+    try:
+        f.close()
+    except Exception as e:  # noqa
+        return written, ("close", e)
+    return written, None
+
+
+def cf_judge(ctx, desc, level, kind, written, err, got, eof_seen, data_after_eof):
+    lvl = "stub channel" if level == "stub" else "transport pair"
+    if err is not None:
+        from vf.core import exc_signature
+
+        ctx.violation("channel file %s() raised with buffered data pending (%s file, %s): %s"
+                      % (err[0].split("/")[0], kind, lvl, exc_signature(err[1])),
+                      "%s on a %s channel file raised %r" % (err[0], kind, err[1]), dict(desc, written=written, got=got))
+        return
+    if data_after_eof:
+        ctx.violation("channel file data sent after EOF (%s file, %s)" % (kind, lvl),
+                      "close() of the stdin file sent EOF before flushing the pending write buffer",
+                      dict(desc, written=written, got=got))
+    elif got != written:
+        if written.startswith(got):
+            what = "data missing at the peer after close()"
+        else:
+            what = "peer received bytes that were not written in that order"
+        ctx.violation("%s (%s file, %s)" % (what, kind, lvl),
+                      "the bytes the peer holds after close() differ from the bytes written",
+                      dict(desc, written=written, got=got))
+    elif kind == "stdin" and not eof_seen:
+        ctx.violation("stdin file close() did not send EOF (%s)" % lvl,
+                      "makefile_stdin().close() must shut the write side down", dict(desc, written=written))
+
+
+def cf_stub_case(ctx, rng, counters, kind, bcls, ending, sample):
+    import struct
+
+    bufsize = rng.choice(BUF_CLASSES[bcls])
+    ops = gen_cf_writes(rng, ending)
+    chan, t = make_channel(out_window=1 << 24, out_max_packet=rng.choice([65, 70, 96, 4096, 1 << 15]))
+    f = cf_open(chan, kind, bufsize)
+    desc = dict(level="stub", kind=kind, bufsize=bufsize, ending=ending, writes=ops)
+    written, err = cf_drive(f, ops)
+    got = bytearray()
+    eof_seen = False
+    data_after_eof = False
+    for raw in t.sent:
+        ty = raw[0]
+        if ty in (94, 95):
+            off = 5 if ty == 94 else 9
+            (ln,) = struct.unpack(">I", raw[off:off + 4])
+            payload = raw[off + 4:off + 4 + ln]
+            if (ty == 95) != (kind == "stderr"):
+                ctx.violation("channel file wrote to the wrong stream (%s file)" % kind, "message type %d" % ty, desc)
+            if eof_seen:
+                data_after_eof = True
+            got += payload
+        elif ty == 96:
+            eof_seen = True
+    ctx.case(("cf-stub", kind, bufsize, ending, repr(ops)), sample=desc if sample else None)
+    counters["chanfile_stub_" + kind] += 1
+    counters["chanfile_stub_%s_%s" % (bcls, ending)] += 1
+    counters["chanfile_wire_messages_parsed"] += len(t.sent)
+    cf_judge(ctx, desc, "stub", kind, written, err, bytes(got), eof_seen, data_after_eof)
+    f._closed = True
+
+
+def cf_pair_stratum(ctx, counters, ncases):
+    import threading
+
+    from vf import pair
+
+    rng = ctx.rng
+    p = pair.Pair(rng=rng)
+    if not p.start(timeout=90) or not p.auth():
+        ctx.inconclusive("channel-file transport stratum: handshake failed: %r %r" % (p.client_exc, p.server_exc))
+        return
+    combos = [(k, b, e) for k in KINDS for b in BUF_CLASSES for e in ENDINGS]
+    rng.shuffle(combos)
+    try:
+        for i in range(ncases):
+            kind, bcls, ending = combos[i % len(combos)]
+            bufsize = rng.choice(BUF_CLASSES[bcls])
+            ops = gen_cf_writes(rng, ending)
+            c, s = p.session(timeout=60)
+            wchan, rchan = (s, c) if kind == "stderr" else (c, s)
+            rchan.settimeout(60)
+            box = dict(got=bytearray(), eof=False)
+
+            def reader(rchan=rchan, kind=kind, box=box):
+                try:
+                    while True:
+                        d = rchan.recv_stderr(4096) if kind == "stderr" else rchan.recv(4096)
+                        if not d:
+                            box["eof"] = True
+                            return
+                        box["got"] += d
+                except Exception as e:  # noqa
+                    box["exc"] = e
+
+            th = threading.Thread(target=reader, daemon=True)
+            th.start()
+            f = cf_open(wchan, kind, bufsize)
+            desc = dict(level="pair", kind=kind, bufsize=bufsize, ending=ending, writes=ops)
+            written, err = cf_drive(f, ops)
+            if kind != "stdin" or err is not None:
+                try:
+                    wchan.shutdown_write()  # lets the peer's read loop end; a stdin file does this itself
+                except Exception:
+                    pass
+            th.join(90)
+            ctx.case(("cf-pair", kind, bufsize, ending, repr(ops)), sample=desc if i == 0 else None)
+            if th.is_alive() or "exc" in box:
+                if err is None:
+                    ctx.inconclusive("channel-file pair case: peer never saw EOF: %r %r" % (desc, box.get("exc")))
+                    f._closed = True
+                    continue
+            counters["chanfile_pair_" + kind] += 1
+            counters["chanfile_pair_%s_%s" % (bcls, ending)] += 1
+            counters["chanfile_peer_bytes_read"] += len(box["got"])
+            cf_judge(ctx, desc, "pair", kind, written, err, bytes(box["got"]), box["eof"], False)
+            f._closed = True
+            c.close()
+            s.close()
+    finally:
+        p.close()
+
+
+def channel_files(ctx, counters, nstub, npair):
+    rng = ctx.rng
+    combos = [(k, b, e) for k in KINDS for b in BUF_CLASSES for e in ENDINGS]
+    for i in range(nstub):
+        kind, bcls, ending = combos[i % len(combos)]
+        cf_stub_case(ctx, rng, counters, kind, bcls, ending, sample=(i == 0))
+    ctx.guard(cf_pair_stratum, ctx, counters, npair)
+
+
 # ------------------------------------------------------------------ one case
 def one_case(ctx, rng, counters, idx):
     direction = rng.choice(["r", "r", "r", "w", "w", "rw"])
@@ -491,12 +687,21 @@ def run(ctx):
     deadline = ctx.deadline(35, 400)
     import time
 
+    channel_files(ctx, counters, ctx.pick(1350, 13500), ctx.pick(54, 162))
     i = 0
     while i < n and time.time() < deadline:
         one_case(ctx, rng, counters, i)
         i += 1
     for k, v in counters.items():
         ctx.count(k, v)
+    for k in KINDS:
+        ctx.require("chanfile_stub_" + k, 1000)
+        ctx.require("chanfile_pair_" + k, 24)
+    for b in BUF_CLASSES:
+        for e in ENDINGS:
+            ctx.require("chanfile_stub_%s_%s" % (b, e), 300)
+            ctx.require("chanfile_pair_%s_%s" % (b, e), 8)
+    ctx.require("chanfile_wire_messages_parsed", 5000)
     ctx.require("lines_compared", 2000)
     ctx.require("read_results_compared", 2000)
     ctx.require("write_checks", 2000)
